@@ -1,10 +1,13 @@
 // transparency.go: C15 — remote Kill / Watch / Unwatch / Ping / Ask / PipeTo between three real systems (each behind
-// its own re-chunking proxy), then the same operations through alias addresses of the target system (alias.go).
+// its own re-chunking proxy), boundary inputs beside a local control (boundary.go), name reuse (respawn.go), then the same
+// operations through alias addresses of the target system (alias.go).
 // Implementation monitors only.
 package main
 
 import (
 	"fmt"
+	"os"
+	"strings"
 	"sync"
 	"time"
 
@@ -187,6 +190,8 @@ func (h *H) runTransparency() {
 			panic(err)
 		}
 		nodes[nm] = n
+		// the link is healthy in this mode: connections replaced by resync are reset in both directions (Proxy.rstServer)
+		n.Proxy.SetResetServer(true)
 		defer func() { n.Stop(); n.Proxy.Close() }()
 	}
 	A, B, C := nodes["A"], nodes["B"], nodes["C"]
@@ -195,6 +200,11 @@ func (h *H) runTransparency() {
 		rounds = 120
 	}
 	modes := []int{ModePass, ModeOne, ModeStraddle, ModeRand}
+	if os.Getenv("XV_ONLY") == "boundary" { // debugging aid: only the boundary scenarios
+		h.boundaryRounds(A, B, C)
+		h.o.Info["accept-name-collisions-logged"] = acceptNameCollisions(A, B, C)
+		return
+	}
 	for i := 0; i < rounds && !h.abort; i++ {
 		mode := modes[(i/4)%len(modes)]
 		if i%4 == 0 {
@@ -216,6 +226,10 @@ func (h *H) runTransparency() {
 		h.pingRound(A, B, C, i, mode)
 		h.pipeRound(A, B, C, i, mode)
 	}
+	// boundary inputs (reason / payload / error-text lengths on the edges of the wire encodings), local ref beside remote ref: boundary.go
+	if !h.abort {
+		h.boundaryRounds(A, B, C)
+	}
 	// name reuse on the target system: respawn.go
 	if !h.abort {
 		h.respawnRounds(A, B, C)
@@ -224,6 +238,23 @@ func (h *H) runTransparency() {
 	if !h.abort {
 		h.aliasRounds(A, B, C)
 	}
+	h.o.Info["accept-name-collisions-logged"] = acceptNameCollisions(A, B, C)
+}
+
+// acceptNameCollisions: "actor already exists: /@remoting/accept-..." errors among the last warnings the systems logged
+// (an accepted connection that nobody reads; expected 0 with resetting proxies)
+func acceptNameCollisions(ns ...*Node) int {
+	k := 0
+	for _, n := range ns {
+		n.Ev.mu.Lock()
+		for _, l := range n.Ev.Logged {
+			if strings.Contains(l, "actor already exists: /@remoting/accept-") {
+				k++
+			}
+		}
+		n.Ev.mu.Unlock()
+	}
+	return k
 }
 
 func remoteOf(n *Node, local vivid.ActorRef) vivid.ActorRef {
